@@ -533,9 +533,10 @@ func parseLiteral(literal []byte) (byte, any, error) {
 				num, err := strconv.ParseFloat(string(literal[:strlen-1]), 64)
 				return TagFloat, float32(num), err
 			case 'D', 'd':
-				fallthrough
-			default:
 				num, err := strconv.ParseFloat(string(literal[:strlen-1]), 64)
+				return TagDouble, num, err
+			default:
+				num, err := strconv.ParseFloat(string(literal[:strlen]), 64)
 				return TagDouble, num, err
 			}
 		} else if unqstr {
